@@ -57,7 +57,7 @@ def gen_cases(seed, tier):
     from .. import c04_gen as G
     G.configure(tier)
     rng = np.random.default_rng([seed, 14])
-    n = 280 if tier == "quick" else 5600
+    n = 280 if tier == "quick" else 12000
     cases = []
     for i in range(n):
         u = rng.random()
